@@ -56,10 +56,79 @@ def analyze_source(repo, module, source, qual='<reference>'):
     return fa
 
 
-def sibling_renames(parent_fa, ref_parent):
+def nested_pairs(ctx, parent_fa, ref_parent):
+    """[(name, qual, ref_name, ref_qual)]: nested functions of the real parent paired with those of the
+    reference parent.  Unique names pair by name, the rest by order of definition - except that several
+    definitions of one name (`if ...: def f ... else: def f ...`) pair by best agreement of their effects,
+    so that the order in which the arms are written does not matter."""
+    cache = ctx.__dict__.setdefault('_npairs', {})
+    key = (parent_fa.fi.qualname, id(ref_parent))
+    if key in cache:
+        return cache[key]
+    a = list(parent_fa.nested.items())
+    r = list(getattr(ref_parent, 'nested', {}).items())
+    pairs = []
+    used_r = set()
+
+    def base(n):
+        return n.split('#')[0]
+    groups = {}
+    for n, q in a:
+        groups.setdefault(base(n), []).append((n, q))
+    rgroups = {}
+    for n, q in r:
+        rgroups.setdefault(base(n), []).append((n, q))
+    for b, members in groups.items():
+        rm = rgroups.get(b, [])
+        if len(members) == 1 or len(members) != len(rm) or len(members) > 3 or not hasattr(ref_parent, 'nested_analyses'):
+            continue
+        import itertools
+        best, best_perm = -1, None
+        effs_a = [effects(_versioned(ctx, ctx.repo.funcs[q])) for _, q in members]
+        effs_r = [effects(ref_parent.nested_analyses[n]) for n, _ in rm]
+
+        def score(ea, er):
+            A = [(repr(p), repr(sorted(map(repr, gs)))) for p, gs, _ in ea]
+            B = [(repr(p), repr(sorted(map(repr, gs)))) for p, gs, _ in er]
+            s = 0
+            for x in A:
+                if x in B:
+                    B.remove(x)
+                    s += 1
+            return s
+        for perm in itertools.permutations(range(len(rm))):
+            sc = sum(score(effs_a[i], effs_r[j]) for i, j in enumerate(perm))
+            if sc > best:
+                best, best_perm = sc, perm
+        for i, j in enumerate(best_perm):
+            pairs.append((members[i][0], members[i][1], rm[j][0], rm[j][1]))
+            used_r.add(rm[j][0])
+    done_a = {p[0] for p in pairs}
+    rest_a = [(n, q) for n, q in a if n not in done_a]
+    rest_r = [(n, q) for n, q in r if n not in used_r]
+    byname = dict(rest_r)
+    leftover_a, taken = [], set()
+    for n, q in rest_a:
+        if n in byname and n not in taken:
+            pairs.append((n, q, n, byname[n]))
+            taken.add(n)
+        else:
+            leftover_a.append((n, q))
+    leftover_r = [(n, q) for n, q in rest_r if n not in taken]
+    for (n, q), (rn, rq) in zip(leftover_a, leftover_r):
+        pairs.append((n, q, rn, rq))
+    cache[key] = pairs
+    return pairs
+
+
+def sibling_renames(parent_fa, ref_parent, ctx=None):
     """Map references to nested functions of the real parent onto the nested
-    functions of the reference parent (matched by order of definition)."""
+    functions of the reference parent."""
     out = {}
+    if ctx is not None:
+        for n, q, rn, rq in nested_pairs(ctx, parent_fa, ref_parent):
+            out[('fn', q)] = ('fn', rq)
+        return out
     for (an, aq), (rn, rq) in zip(parent_fa.nested.items(), ref_parent.nested.items()):
         out[('fn', aq)] = ('fn', rq)
     return out
@@ -193,8 +262,8 @@ def compare(ctx, rule, fa, ref_source, module=None, known=(), ignore=None, why='
     ref = ref_fa if ref_fa is not None else analyze_source(ctx.repo, module, ref_source)
     rename = dict(extra_rename or {})
     rename[('fn', fa.fi.qualname)] = ('fn', ref.fi.qualname)       # self reference (recursion)
-    # nested function references are matched by order of definition
-    for (an, aq), (rn, rq) in zip(fa.nested.items(), getattr(ref, 'nested', {}).items()):
+    # nested function references (by name; duplicates of one name by best agreement)
+    for an, aq, rn, rq in nested_pairs(ctx, fa, ref):
         rename[('fn', aq)] = ('fn', rq)
     if positional_params:
         for a, b in zip(fa.params, ref.params):
